@@ -614,6 +614,15 @@ def run_node_reads(spec):
                     hb += 1
                     blob += M.dwr(name, REALM, hbh=hb, e2e=0x60000 + hb)
                 blob += b"\x01" + _st.pack(">I", bad_len)[1:] + b"\x80\x00\x01\x18" + bytes(12)
+                if k >= 5 and not sp.closed and not sp.node_sock.closed:
+                    # a neighbour connection is busy in the same read round: many connections ask for the I/O loop's
+                    # attention at once, the one that has to be closed somewhere among them
+                    burst = b""
+                    for j in range(3 * k):
+                        hb += 1
+                        burst += M.dwr(name, REALM, hbh=hb, e2e=0x70000 + hb)
+                    sp.send(burst)
+                    cov["bad_frame_with_busy_neighbour"] = cov.get("bad_frame_with_busy_neighbour", 0) + 1
                 sp2.send(blob)
                 h.settle()
                 hb += 1
